@@ -935,6 +935,13 @@ def _load_data(rec, context):
 
         result.add_component(comp, cid)
 
+        # Links that do not store their output (e.g. arithmetic links) are
+        # re-created with an anonymous output ComponentID, so we make sure the
+        # link of a derived component points to the ID it is registered under,
+        # otherwise links from this component to other datasets are broken.
+        if isinstance(comp, DerivedComponent) and comp.link.get_to_id() is not cid:
+            comp.link.set_to_id(cid)
+
     assert result._world_component_ids == []
 
     coord = [c for c in comps if isinstance(c[1], CoordinateComponent)]
@@ -1381,6 +1388,13 @@ def _load_regiondata(rec, context):
                 comps[icomp] = (cid, comp)
 
         result.add_component(comp, cid)
+
+        # Links that do not store their output (e.g. arithmetic links) are
+        # re-created with an anonymous output ComponentID, so we make sure the
+        # link of a derived component points to the ID it is registered under,
+        # otherwise links from this component to other datasets are broken.
+        if isinstance(comp, DerivedComponent) and comp.link.get_to_id() is not cid:
+            comp.link.set_to_id(cid)
 
     assert result._world_component_ids == []
 
